@@ -160,16 +160,21 @@ func (s *Set) getTemplate(templatePath string, cacheAfterParsing bool) (t *Templ
 	t, err = s.getTemplateFromLoader(templatePath, cacheAfterParsing)
 	if err == nil && cacheAfterParsing && !s.developmentMode {
 		verifYield("getTemplate:put")
-		// store under the path that was loaded (with its extension): that is
-		// what getTemplateFromCache asks the cache for
-		s.cache.Put(t.Name, t)
+		s.cache.Put(templatePath, t)
 	}
 	return t, err
 }
 
 func (s *Set) getTemplateFromCache(templatePath string) (t *Template, ok bool) {
+	// a template is stored under the path it was requested with
+	if t := s.cache.Get(templatePath); t != nil {
+		return t, true
+	}
 	// check path with all possible extensions in cache
 	for _, extension := range s.extensions {
+		if extension == "" {
+			continue // the requested path itself, probed above
+		}
 		canonicalPath := templatePath + extension
 		if t := s.cache.Get(canonicalPath); t != nil {
 			return t, true
